@@ -27,7 +27,7 @@ import loops as LP
 import panicfree
 from callgraph import callgraph
 from facts import short
-from mir import body_of, callee_path, op_place
+from mir import body_of, callee_path, op_place, strip_generics
 from packs_common import muxer_entries, io_fallible_set, IO_TRAITS
 from panicfree import fn_short
 from report import site_of
@@ -170,27 +170,73 @@ def run(fx, chk, tier):
     ok = len(wcalls) == 1 and (wcalls[0][1]["callee"].get("path") or "").endswith("write_all") and "chunk_buffer" in cb.deep_str(wcalls[0][1]["args"][1])
     chk.require(ok, "R5", "flush|payload-only", "one write_all of the chunk buffer", "the chunk flush writes something other than the pending chunk buffer", site_of(wc))
 
-    # ---------------- R6
+    # ---------------- R6  (dependencies of the stored values, from the abstract interpreter's provenance: independent of
+    # parameter names, temporaries, cast spelling and of whether the total is accumulated or recomputed)
+    from absint import Interp
     ud = fx.impl_fn("Mp4TrackWriter", None, "update_durations")
     if chk.anchor("R6", "Mp4TrackWriter::update_durations", ud):
         ub = body_of(ud)
+        it = Interp(fx, ub).run()
+        # parameters by type: the u32 sample duration and the u32 movie timescale are P2 / P3 in declaration order
         stores = {}
         for b in ub.reach:
-            for s in ub.stmts(b):
-                if s["k"] == "assign" and s["place"]["l"] == 1 and s["place"]["p"] and isinstance(s["place"]["p"][-1], dict) and s["place"]["p"][-1]["f"] == "duration":
-                    adt = short(s["place"]["p"][-1].get("adt", ""))
-                    stores[adt] = ub.rv_str(s["rv"])
-        m = stores.get("MdhdBox", "")
-        t = stores.get("TkhdBox", "")
-        chk.require("mdhd.duration" in m and "dur" in m and "Add(" in m, "R6", "mdhd.duration", m, "mdhd.duration is not stored as previous value + sample duration (%s)" % m, site_of(ud))
-        chk.require("tkhd.duration" in t and "dur" in t and "movie_timescale" in t and "mdhd.timescale" in t and "Add(" in t, "R6", "tkhd.duration", t[:120],
-                    "tkhd.duration is not stored as previous value + duration * movie_timescale / track timescale (%s)" % t, site_of(ud))
+            st = it.in_states.get(b)
+            if st is None:
+                continue
+            st = st.copy()
+            for i, s_ in enumerate(ub.stmts(b)):
+                if s_["k"] == "assign" and s_["place"]["l"] == 1 and s_["place"]["p"] and isinstance(s_["place"]["p"][-1], dict) and s_["place"]["p"][-1]["f"] == "duration" and s_["rv"]["k"] == "use":
+                    adt = short(s_["place"]["p"][-1].get("adt", ""))
+                    sid, lo, hi, prov = it.read_op(st, s_["rv"]["a"], (b, i))
+                    stores[adt] = set(prov or ())
+                if s_["k"] == "assign":
+                    it.assign(st, b, i, s_)
+        m = stores.get("MdhdBox", set())
+        t = stores.get("TkhdBox", set())
+        dur_root = "P2"
+        chk.require(dur_root in m and any(r.endswith("mdhd.duration") for r in m), "R6", "mdhd.duration", "depends on %s" % sorted(m),
+                    "mdhd.duration is not stored as previous value + sample duration (depends on %s)" % sorted(m), site_of(ud))
+        need_t = dur_root in t and "P3" in t and any(r.endswith("mdhd.timescale") for r in t)
+        chk.require(need_t, "R6", "tkhd.duration", "depends on %s" % sorted(t),
+                    "tkhd.duration does not depend on the sample durations, the movie timescale and the track timescale (depends on %s)" % sorted(t), site_of(ud))
     wud = fx.impl_fn("Mp4Writer<W>", None, "update_durations")
     if wud is not None:
         wb2 = body_of(wud)
-        st = [wb2.rv_str(s["rv"]) for b in wb2.reach for s in wb2.stmts(b) if s["k"] == "assign" and s["place"]["l"] == 1 and s["place"]["p"] and isinstance(s["place"]["p"][-1], dict) and s["place"]["p"][-1]["f"] == "duration"]
-        guarded = any(wb2.term(b)["k"] == "switch" for b in wb2.reach)
-        chk.require(st == ["track_dur"] and guarded, "R6", "movie duration", "duration := track_dur under `track_dur > duration`", "the writer's movie duration is not max(old, track duration): stores %s" % st, site_of(wud))
+        it2 = Interp(fx, wb2).run()
+        good = None
+        why = "no store to the writer's duration"
+        for b in wb2.reach:
+            st = it2.in_states.get(b)
+            if st is None:
+                continue
+            st = st.copy()
+            for i, s_ in enumerate(wb2.stmts(b)):
+                if s_["k"] == "assign" and s_["place"]["l"] == 1 and s_["place"]["p"] and isinstance(s_["place"]["p"][-1], dict) and s_["place"]["p"][-1]["f"] == "duration" and s_["rv"]["k"] == "use":
+                    pl = op_place(s_["rv"]["a"])
+                    sd = wb2.single_def(pl["l"]) if pl is not None and not pl["p"] else None
+                    sid, lo, hi, prov = it2.read_op(st, s_["rv"]["a"], (b, i))
+                    prov = set(prov or ())
+                    if sd and sd[2] == "call" and strip_generics(sd[3]["callee"].get("path") or "") in ("core::cmp::Ord::max", "core::cmp::max"):
+                        ok_ = "P2" in prov and any(r.endswith(".duration") for r in prov)
+                        good = ok_ if good is None else (good and ok_)
+                        why = "max() of %s" % sorted(prov)
+                    else:
+                        # plain store of the track duration: must sit under a comparison of it with the old value
+                        guarded = False
+                        for b0 in wb2.reach:
+                            t0 = wb2.term(b0)
+                            if t0["k"] == "switch" and wb2.dominates(b0, b) and b0 != b:
+                                dp = op_place(t0["discr"])
+                                d0 = wb2.single_def(dp["l"]) if dp is not None and not dp["p"] else None
+                                if d0 and d0[2] == "assign" and d0[3]["k"] == "bin" and d0[3]["op"] in ("Gt", "Lt", "Ge", "Le"):
+                                    txt = wb2.canon_op(d0[3]["a"]) + " " + wb2.canon_op(d0[3]["b"])
+                                    guarded = "$2" in txt and ".duration" in txt
+                        ok_ = prov == {"P2"} and guarded
+                        good = ok_ if good is None else (good and ok_)
+                        why = "store of %s %s" % (sorted(prov), "under a comparison with the old value" if guarded else "without a comparison with the old value")
+                if s_["k"] == "assign":
+                    it2.assign(st, b, i, s_)
+        chk.require(bool(good), "R6", "movie duration", "max(old, track duration): %s" % why, "the writer's movie duration is not max(old, track duration): %s" % why, site_of(wud))
     stores = {}
     for b in wb.reach:
         for s in wb.stmts(b):
